@@ -275,6 +275,10 @@ def rule_positional_index(check, rule, funckeys):
 LAZY_BUILTINS = ('map', 'filter', 'zip', 'iter', 'enumerate', 'reversed')
 
 
+LAZY_ITERTOOLS = frozenset(['chain', 'from_iterable', 'islice', 'starmap', 'takewhile', 'dropwhile', 'zip_longest', 'izip', 'imap', 'ifilter',
+                            'compress', 'filterfalse', 'accumulate', 'pairwise'])
+
+
 def rule_lazy_iterators(check, rule, module_names=('_signatures', '_autoforwards', 'modifiers', '_util', 'specifiers', 'wrappers')):
     """A generator expression (or map/filter/zip/... object) reads its source container when it is *consumed*, not where it
     is written.  If the container is emptied or edited between the two, the consumer sees the edited container: a
@@ -292,7 +296,9 @@ def rule_lazy_iterators(check, rule, module_names=('_signatures', '_autoforwards
             if not (isinstance(stmt, ast.Assign) and len(stmt.targets) == 1 and isinstance(stmt.targets[0], ast.Name)):
                 continue
             v = stmt.value
-            lazy = isinstance(v, ast.GeneratorExp) or (isinstance(v, ast.Call) and isinstance(v.func, ast.Name) and v.func.id in LAZY_BUILTINS)
+            lazy = isinstance(v, ast.GeneratorExp) or (isinstance(v, ast.Call) and isinstance(v.func, ast.Name) and v.func.id in LAZY_BUILTINS) \
+                or (isinstance(v, ast.Call) and isinstance(v.func, ast.Attribute) and norm(v.func).split('.')[0] in ('itertools', 'chain')
+                    and v.func.attr in LAZY_ITERTOOLS)
             if not lazy:
                 continue
             name = stmt.targets[0].id
